@@ -265,7 +265,7 @@ func genApp(c *Ctx, ec *eCase) {
 
 var junkInputs = [][]byte{[]byte(""), []byte("x"), []byte("!bad"), []byte("1\n2"), []byte("+1"), []byte(" 1"), []byte("99"), {0xff, 0x31},
 	[]byte(strings.Repeat("7", 300)), []byte(strings.Repeat("a", 255)), []byte(strings.Repeat("a", 256)), []byte("0"), []byte("*"), []byte("_"), []byte("<"),
-	[]byte("11"), []byte("22"), []byte("5")}
+	[]byte("11"), []byte("22"), []byte("5"), []byte("a{{"), []byte("1{{.aa}}"), []byte("x{{printf \"%9d\" 1}}y"), []byte("7}}{{")}
 
 // pendingSelectors lists the selectors of all INCMP instructions in pending bytecode.
 func pendingSelectors(code []byte) []string {
